@@ -1267,7 +1267,7 @@ def corrupt(t, how):
         c = None
         k = e["kind"]
         if k == "read" and how.startswith("read-") and e["want"]["all"] and e["doc"] and {ln["c"] for ln in e["doc"]} <= SIMPLE \
-                and e["doc"][0]["c"] in ("F", "M") and e["res"] and e["res"][0]:
+                and e["doc"][0]["c"] in ("F", "M") and e["res"] and e["res"][0] and not (e["cls"] == "lenient" and e["sarg"] == "other"):
             c = copy.deepcopy(e)
             par = c["res"][0]
             if how == "read-drop":
@@ -1438,7 +1438,7 @@ def run(ctx):
     if quick:
         plan = ["small"] * 260 + ["fields"] * 2 + ["paras"] * 2 + ["objs"] * 3 + ["conts"] * 2
     else:
-        plan = ["small"] * 2600 + ["fields"] * 16 + ["paras"] * 16 + ["objs"] * 24 + ["conts"] * 16
+        plan = ["small"] * 1500 + ["fields"] * 12 + ["paras"] * 12 + ["objs"] * 16 + ["conts"] * 12
     traces, seeds = [], []
     for size in plan:
         tseed = rng.getrandbits(32)
@@ -1506,7 +1506,7 @@ def run(ctx):
             if len(ctx.violations) >= 5:
                 break
             seed = rng.getrandbits(32)
-            if quick and (seed % 100) >= (55 if tag == "CASE" else 35):
+            if (quick and (seed % 100) >= (65 if tag == "CASE" else 45)) or (not quick and r is not runs[0] and (seed % 100) >= 60):
                 nskipped += 1
                 continue
             idx = ncase + narmor
